@@ -362,6 +362,18 @@ def directed_class_cases():
                            {"op": "new", "cls": 0, "k": 1, "args": {}, "truth": {1: ["T"]}}]}
 
 
+def diamond_class_cases():
+    """The diamonds of C04's matrix that carry invariants: every class wraps its members, yet the body that runs for the
+    bottom class is the one the bare twin runs (an arm that merely inherits does not shadow the other arm's override)."""
+    from vf.props import c04
+
+    for case in c04.diamond_matrix():
+        m = case["matrix"]
+        if m[-1] == "none" or (m[3] == "nopre" and m[5] == "override+pre"):
+            continue  # (adding a precondition below an unconstrained base is rejected at definition: C04's business)
+        yield {"part": "B", "program": case["program"], "ops": case["ops"], "directed": "diamond/" + "/".join(str(x) for x in m[1:])}
+
+
 def body_view(log):
     return [(e[0], e[1]) for e in log if e[0] == "body"]
 
@@ -450,6 +462,9 @@ def run(ctx, tier, seed, shard, nshards):
         check_class(ctx, dict(D23_CASE))
         for case in directed_class_cases():
             check_class(ctx, case)
+        for case in diamond_class_cases():
+            check_class(ctx, case)
+            ctx.count("directed:diamond-classes")
         colour_cases(ctx)
 
 
